@@ -10,9 +10,9 @@ from harness.c07_util import World
 from translate import c07_index_sites, c07_index_shapes, c07_index_del, c07_index_listops
 
 MANIFEST = dict(
-    technique='Rocq proof (index invariant preserved by every operation incl. defaultdict reads, by induction over operation sequences on several maps; search() sound and complete both for the hand model and for every program shape that passes the generated obligations; make_unique loop termination by pigeonhole; CopySet iteration total and exception-free under arbitrary mutation; worldspawn pinned) + two fail-closed ast translators (census of writers/escapes/key sources; shapes of Entity.__setitem__, VMF.search, CopySet.__iter__) + vm_compute correspondences (operation sequences, search, search as written, iteration traces) + scan oracle on real VMF objects',
-    text='Theorems in Props/C07.v about SM/IndexModel.v (entity list, spawn, per-entity key lists with case-insensitive first-spelling-wins lookup, by_class/by_target as maps from folded key to sets of entities, possibly holding empty sets left by defaultdict reads): the invariant "every index entry equals the scan of entities+worldspawn under the current folded classname / targetname (\'\' -> None), the worldspawn has class worldspawn and is listed under it" holds for VMF(), for VMF.parse of any tree, is preserved by every operation (create_ent/add_ent/add_ents/remove_ent, Entity(), copy between maps, []=, del (single and tuple), pop, popitem, setdefault, update, clear, make_unique, export, reading by_class[k]/by_target[k]) whatever its arguments and whether or not it raises, hence after every finite history over any number of maps; search() returns exactly the matching entities. Round 2: the decisive code is modelled from its source shape, regenerated on every run: (1) the lookup loop of Entity.__setitem__ (which key spelling fetches the previous value and stores the new one, before/after the store) - every shape passing five named obligations equals the hand model for all inputs, the caller-spelling and read-after-store shapes are refuted; (2) VMF.search as a program over real defaultdict semantics (reads insert empty sets, `in` sees them) - every program passing the obligations returns exactly the specified entities and leaves a state no reader can distinguish, the if/elif shape is refuted; (3) CopySet.__iter__ as a generator program - no RuntimeError for any loop body, exactly |snapshot|+|late| yields, each element once, invariant kept when the body applies arbitrary operations; plain set iteration refuted; (4) the make_unique while-True loop ends within the model\'s fuel (n+1 candidates, n keys; candidates distinct after folding) and returns the first unused name; make_unique never raises. Tied to vmf.py on every run by the fail-closed census (writers of Entity._keys, escapes of the dict, writers of VMF.entities/VMF.spawn, every index update: key folded, value read from the filed entity\'s own classname/targetname, adds guarded by membership), the shape obligations, and correspondences comparing, after every step, error code, entity list, key lists and both indexes of the model with real VMF objects, search results (hand model and program as written) and the yield traces of index iterations with mutating bodies; a scan oracle checks the property directly on the implementation after every step.',
-    note='Trusted: Coq kernel + vm_compute, translate/c07_index_sites.py, translate/c07_index_shapes.py, the hand model SM/IndexModel.v (tied by the correspondences and, for __setitem__/search/CopySet.__iter__, by translator-generated shapes proved equal to it), CPython. No axioms. str.casefold is a parameter of the model; theorems assume it fixes the empty string and the literals classname/targetname/worldspawn, is idempotent (search), and distributes over an appended decimal number (make_unique termination) - all proved for ASCII lower-casing, true of str.casefold. Not modelled: nodeid processing (C08), conversion of non-string values (conv_kv), Entity.keys setter (clear+update), laziness/order/multiplicity of search() results, the empty sets that make_unique and iteration leave in the implementation\'s defaultdicts (shown irrelevant: ix_equiv). Non-ASCII names only in the oracle stream. Out of domain: add_ent of the worldspawn object or of an entity created for another VMF, writing through the dict returned by the deprecated Entity.keys property.',
+    technique='Rocq proof (index invariant preserved by every operation incl. defaultdict reads, by induction over operation sequences on several maps; every operation respects ix_equiv; search() sound and complete; make_unique loop termination by pigeonhole; CopySet iteration total and exception-free under arbitrary mutation; worldspawn pinned; every index-maintaining function of vmf.py read off the source as a program/shape and proved equal to the model operation whenever its named path obligations hold) + four fail-closed ast translators (census of writers/escapes/key sources on a normalised function; shapes/programs of Entity.__setitem__ (lookup loop and maintenance chain), Entity.__delitem__, Entity.clear, VMF.add_ent, VMF.add_ents, VMF.remove_ent, _remove_copyset, VMF.search, CopySet.__iter__) + vm_compute correspondences (operation sequences, search, search as written, iteration traces) + scan oracle on real VMF objects',
+    text='Theorems in Props/C07.v about SM/IndexModel.v (entity list, spawn, per-entity key lists with case-insensitive first-spelling-wins lookup, by_class/by_target as maps from folded key to sets of entities, possibly holding empty sets left by defaultdict reads): the invariant "every index entry equals the scan of entities+worldspawn under the current folded classname / targetname (\'\' -> None), the worldspawn has class worldspawn and is listed under it" holds for VMF(), for VMF.parse of any tree, is preserved by every operation (create_ent/add_ent/add_ents/remove_ent, Entity(), copy between maps, []=, del (single and tuple), pop, popitem, setdefault, update, clear, make_unique, export, reading by_class[k]/by_target[k]) whatever its arguments and whether or not it raises, hence after every finite history over any number of maps; search() returns exactly the matching entities; states that differ only in empty sets held by the index maps stay equivalent under every operation (round 3). The decisive code is modelled from its source, regenerated on every run, and for each function a theorem says that every generated object passing its named obligations is the model operation for all inputs: the lookup loop of Entity.__setitem__ (round 2) and, round 3, its whole maintenance chain incl. the error path of the worldspawn guard with its recursive store (set_item); Entity.__delitem__ = pre-loop program + pop loop shape (del_item); Entity.clear as a step list (clear); VMF.add_ents over one-shot and re-iterable arguments (add_ents); VMF.add_ent and VMF.remove_ent as programs whose conditions are evaluated where they stand (add_ent, remove_ent); _remove_copyset as a shape (ix_remove; leaving empty sets is reader-equal); VMF.search as a program over real defaultdict semantics and CopySet.__iter__ as a generator program (round 2). Faulty shapes are refuted by computed witnesses on reachable states (caller-spelling read, read after store, if/elif search, plain set iteration, direct revert in the worldspawn guard, add_ents iterating twice, set.remove / inverted emptiness test / missing None guard in _remove_copyset, unguarded by_target[None] addition and pop by the caller\'s spelling in __delitem__, membership test before the list removal and and-guard in remove_ent, clear forgetting the targetname). make_unique: the while-True loop ends within n+1 candidates and never raises. Tied to vmf.py on every run by the fail-closed census (writers of Entity._keys, escapes of the dict, writers of VMF.entities/VMF.spawn, every index update: key folded, value read from the filed entity, adds guarded; classified on a normalised function), 34 shape/path obligations, and correspondences comparing, after every step, error code, entity list, key lists and both indexes of the model with real VMF objects (add_ents called with generator/iterator/map/list/tuple), search results and the yield traces of index iterations with mutating bodies; a scan oracle checks the property directly on the implementation after every step.',
+    note='Trusted: Coq kernel + vm_compute, translate/c07_index_sites.py, c07_index_shapes.py, c07_index_del.py, c07_index_listops.py, the hand model SM/IndexModel.v (tied by the correspondences and, for __setitem__/__delitem__/clear/add_ent/add_ents/remove_ent/_remove_copyset/search/CopySet.__iter__, by translator-generated programs proved equal to it), CPython. No axioms. str.casefold is a parameter of the model; theorems assume it fixes the empty string and the literals classname/targetname/worldspawn, is idempotent (search), distributes over an appended decimal number (make_unique termination) and does not map nodeid to classname/targetname (clear) - all proved for ASCII lower-casing, true of str.casefold. Hand-modelled without a generated program (census + correspondence only): VMF.__init__, VMF.parse/replace_spawn, Entity.__init__/copy, make_unique, the MutableMapping mixins pop/popitem/setdefault/update. Not modelled: nodeid processing (C08), conversion of non-string values (conv_kv), Entity.keys setter (clear+update), laziness/order/multiplicity of search() results, the empty sets that make_unique and iteration leave in the implementation\'s defaultdicts (shown irrelevant for every later operation: c07_run_respects_ix_equiv). Non-ASCII names only in the oracle stream. Out of domain: add_ent of the worldspawn object or of an entity created for another VMF, writing through the dict returned by the deprecated Entity.keys property.',
 )
 
 NAMES = ['a', 'A', 'Ab', 'aB', '', 'a1', 'worldspawn']
